@@ -115,8 +115,11 @@ def run(F, tier, res):
     def self_ty(c):
         full = callee_full(c)
         return full.split(' as ')[0] if full.startswith('<') else full
-    revs = [(i, c) for i, c in F.calls(gov[0]) if callee_of(c).endswith(CONSUME) and 'Rev<' in self_ty(c) and 'SplitWhitespace' in self_ty(c)]
-    fwd = [(i, c) for i, c in F.calls(gov[0]) if callee_of(c).endswith(CONSUME) and 'SplitWhitespace' in self_ty(c) and 'Rev<' not in self_ty(c)]
+    # ... wherever in the function or in the closures it hands to combinators the iteration happens
+    scope_fns = [gov[0]] + sorted(q for q in F.fn_bodies if q.startswith(gov[0] + '::{closure'))
+    all_calls = [(i, c) for q in scope_fns for i, c in F.calls(q)]
+    revs = [(i, c) for i, c in all_calls if callee_of(c).endswith(CONSUME) and 'Rev<' in self_ty(c) and 'SplitWhitespace' in self_ty(c)]
+    fwd = [(i, c) for i, c in all_calls if callee_of(c).endswith(CONSUME) and 'SplitWhitespace' in self_ty(c) and 'Rev<' not in self_ty(c)]
     if revs and not fwd:
         ok += 1
     else:
